@@ -1,4 +1,5 @@
 """Shared implementation of the history-based property modules."""
+import bprop
 import common
 import histgen
 import shapes
@@ -15,10 +16,14 @@ PROFILES = {
 NTHREADS = {"C03": (1, 2), "C04": (1, 2), "C05": (1, 3), "C06": (1, 2), "C10": (1, 3), "C11": (1, 2), "C17": (1, 2)}
 PRE = {"C03": 0.1, "C04": 0.3, "C05": 0.15, "C06": 0.1, "C10": 0.05, "C11": 0.1, "C17": 0.35}
 COUNT = {"quick": 1500, "thorough": 25000}
+# C03 / C04 / C05 are also judged on interleaved (Level B) executions: BMonitors.v check_C03b / C04b / C05b
+BCOUNT = {"quick": 500, "thorough": 8000}
+BPIDS = ("C03", "C04", "C05")
 
 
 def gen(pid, tier, rng, n=None, poison=None):
     scens = []
+    full = n is None
     n = n or COUNT[tier]
     for i in range(n):
         b = shapes.B(f"{pid.lower()}_{i}")
@@ -30,15 +35,24 @@ def gen(pid, tier, rng, n=None, poison=None):
         if not hist:
             hist = [(0, ("get",))]
         scens.append(b.scen(hist=hist, pre=pre, meta={"roots": [b.desc[c] for c in u.roots], "nt": nt}))
+    if pid in BPIDS:
+        bs = bprop.gen(pid, tier, rng, n=BCOUNT[tier] if full else max(1, n // 3))
+        for s in bs:
+            s.sid = "b" + s.sid
+        scens += bs
     return scens
 
 
 def coq_expr(pid, s, r):
+    if s.sched:
+        return bprop.coq_expr(pid, s, r, "b")
     return f"check_{pid} ({s.coq(*r['adr'])}) {common.obs_list(r)}"
 
 
 def classify(s, r):
-    out = [f"threads={s.meta['nt']}", f"len={len(s.hist)}"]
+    if s.sched:
+        return ["level=B"] + bprop.classify(s, r)
+    out = ["level=A", f"threads={s.meta['nt']}", f"len={len(s.hist)}"]
     codes = {}
     for o in r["obs"]:
         c = o.split("(", 1)[1].split(")", 1)[0].split()[0]
@@ -55,6 +69,8 @@ def signature(s):
 
 def nontrivial(pid, s, r):
     """a history is non-trivial for a property when it reaches the branches that property is about"""
+    if s.sched:
+        return bprop.nontrivial(pid, s, r)
     obs = " ".join(r["obs"])
     ops = [op for _, op in s.hist]
     has_panic = any(op[0] == "panic" or (op[0] == "acq" and len(op) > 5 and ("panic",) in op[5]) for op in ops)
